@@ -663,7 +663,7 @@ def run(ctx):
     ctx.rule = ("cases = 1-3 messages sent one after the other on one real connection (AF_UNIX socket pair, SO_SNDBUF of the "
                 "sender shrunk to 4608..40000 or default); each message: byte order, 6 header shapes (incl. a header longer "
                 "than the socket buffer), flags, preset/fresh serial, 0-3 real descriptors (pipes, compared by st_dev/st_ino), "
-                "body of 0 B .. %s built by push_param or from_parts (with buffer offset), and a random script of "
+                "body of 0 B .. %s (generated ones up to 256 KiB in quick) built by push_param or from_parts (with buffer offset), and a random script of "
                 "write_once(Nonblock) / peer drains / into_progress / resume / write(Nonblock) / write(1ms) ended by a "
                 "write loop or write_all, or (about one message in eight) sent through the public wrapper "
                 "send_message_write_all while a thread drains the peer; some messages are given up (context dropped "
@@ -671,7 +671,10 @@ def run(ctx):
                 "after a partial write, where Drop panics by design) or are refused by send_message while the header is "
                 "marshalled (illegal member name), and the next message on the same connection must be intact; the kernel decides every accepted size, the harness records it and the model "
                 "replays it. A case is non-trivial when it saw a short write, EAGAIN or a suspension at a partial position; "
-                "distinct = distinct (message, observed schedule)") % ("4 MiB" if thorough else "256 KiB")
+                "distinct = distinct (message, observed schedule). Messages whose header + body exceed %d KiB are not replayed "
+                "through the extracted model (list-based, too slow): they are judged by the property predicate on the "
+                "implementation's output only - the evidence counts them as model_skipped / model_replayed; quick adds one "
+                "fixed 4 MiB message with descriptors to the generated ones") % ("4 MiB", (MODEL_MAX_THOROUGH if thorough else MODEL_MAX_QUICK) // 1024)
     ctx.trusted = ["Coq 8.16.1 kernel (coqc), no native_compute", "extraction with ExtrOcamlBasic only, ocamlfind ocamlopt 4.13.1",
                    "ocaml/c10/driver.ml and harness/src/bin/c10.rs (I/O wrappers; the driver replays the harness's API calls on the model)",
                    "Linux AF_UNIX stream socket semantics as modelled by Conn/Send.v sendmsg: accepted bytes are a prefix of the iov, the "
@@ -699,6 +702,9 @@ def run(ctx):
     n = 2500 if thorough else 450
     for _ in range(n):
         cases.append(gen_case(r, thorough))
+    # the quantifier says multi-megabyte: one 4 MiB message in every run (about 0.1 s), suspended and resumed on the way
+    cases.append(parse_case_line("case sndbuf=40000 pre=1 | bo=B hv=1 plen=0 flags=1 preset=- nfds=3 pay=4194304 seed=4242 mode=push off=0 "
+                                 "script=w,d100000,w,W,s,d1048576,r,w,T,d1048576,s,r,A | bo=l hv=0 plen=0 flags=0 preset=- nfds=1 pay=7 seed=1 mode=parts off=0 script=w"))
     tmp = private_scratch()
     try:
         evaluate(ctx, exe, drv, cases, MODEL_MAX_THOROUGH if thorough else MODEL_MAX_QUICK, timeout=1800 if thorough else 240)
